@@ -11,3 +11,4 @@ pub mod c13;
 pub mod c10;
 pub mod c08;
 pub mod c19;
+pub mod c17;
